@@ -1049,6 +1049,10 @@ std::string Generator::GeneratorImpl::generateOperatorCode(const std::string &op
             || isTimesOperator(astRightChild)
             || isDivideOperator(astRightChild)
             || isLogarithmWithBase(astRightChild)
+            || (isMinusOperator(astRightChild)
+                && (astRightChild->rightChild() == nullptr)
+                && (isTimesOperator(astRightChild->leftChild())
+                    || isDivideOperator(astRightChild->leftChild())))
             || isPiecewiseStatement(astRightChild)) {
             astRightChildCode = "(" + astRightChildCode + ")";
         } else if (isPlusOperator(astRightChild)
